@@ -318,6 +318,21 @@ def opTable : List OpSpec :=
 
 def findOp (name : String) : Option OpSpec := opTable.find? (·.name = name)
 
+/-! ### which attribute of a CRS specification decides its identity (`CRS.__init__`, `_make_crs`: crs.py:57-78, 100-122)
+
+Strings / ints / pyproj objects / odc CRS / dicts are read as themselves.  A *foreign* object
+(rasterio CRS, any duck type) is accepted iff it has `to_wkt()`, and then its WKT — never its
+`to_epsg()` (a fuzzy best match) or `to_string()` — decides which CRS it is. -/
+
+inductive IdSource where
+  | itself      -- the text / code / dict / pyproj object / odc CRS that was passed
+  | wkt         -- `crs_spec.to_wkt()`
+  deriving DecidableEq, Repr
+
+/-- `foreignIdentity hasWkt hasEpsg hasString` -/
+def foreignIdentity (hasWkt _hasEpsg _hasString : Bool) : Except Err IdSource :=
+  if hasWkt then .ok .wkt else .error (.other 1)   -- pyproj CRSError("Unexpected input encountered")
+
 /-! ### call forms
 
 `wrap_shapely` builds `wrapped(*args)`: the sixteen decorated `Geometry` methods take their
